@@ -420,3 +420,20 @@ package dkg
 //@ func (*BoltStore).save(s, bucketName, beaconID, state) (err)
 //@   props C13
 //@   ensures [C13:a-single-record-is-saved-by-one-transaction] ntx(s.db) == old(ntx(s.db)) + 1
+
+// ---- C20: the DKG database record and its hand-maintained TOML mirror carry every field -----------------------------
+// fieldwise(dst, src, skipped): every field of src not listed as skipped has an equal, same-typed field in dst; a field
+// added to DBState later and forgotten in the mirror makes the clause fail (or unevaluable, reported as a violation).
+// Timeout and GenesisTime are time.Time values (GenesisTime normalised to UTC), FinalGroup / KeyShare go through their
+// own TOML mirrors: for these only presence is stated here.
+//@ func (*DBState).TOML(d) (r)
+//@   props C20
+//@   requires [C20] d.FinalGroup != nil ==> d.FinalGroup.Scheme != nil && (forall k int :: 0 <= k && k < len(d.FinalGroup.Nodes) ==> d.FinalGroup.Nodes[k] != nil && d.FinalGroup.Nodes[k].Identity != nil)
+//@   requires [C20] d.KeyShare != nil ==> d.KeyShare.Share != nil && d.KeyShare.Scheme != nil
+//@   ensures [C20:dkg-record-mirror-carries-every-field] fieldwise(r, d, "Timeout,GenesisTime,FinalGroup,KeyShare")
+//@   ensures [C20:dkg-record-mirror-keeps-group-and-share-presence] (r.FinalGroup != nil) == (d.FinalGroup != nil) && (r.KeyShare != nil) == (d.KeyShare != nil)
+
+//@ func (*DBStateTOML).FromTOML(d) (res, err)
+//@   props C20
+//@   ensures [C20:dkg-record-decoding-carries-every-field] err == nil ==> res != nil && fieldwise(res, d, "Timeout,GenesisTime,TransitionTime,FinalGroup,KeyShare")
+//@   ensures [C20:dkg-record-decoding-keeps-group-and-share-presence] err == nil ==> (res.FinalGroup != nil) == (d.FinalGroup != nil) && (res.KeyShare != nil) == (d.KeyShare != nil)
